@@ -1,4 +1,5 @@
 import Iec.Lemmas.Srv104
+import Iec.Model.Cli104
 /-
 C11 — CS104 acknowledgement duty (w, t2) and supervision timers (t1, t3).
 
@@ -13,7 +14,10 @@ Theorems on the server model, per processing step and on a virtual clock (`s.now
 and not before) with `t1_empty`, `t3_testfr` (t3).  All timer values are read from the
 configuration record `s.p` (the correspondence run varies k, w, t1, t2, t3).  Lateness is
 bounded by the tick period: the code looks at the clock only in `handleTimeouts`.
-Client role: correspondence only (partial).
+Client role (`section Client`): the same duties on the client model, which the cli104 differential ties to
+cs104_connection.c: `client_ack_after_w`, `client_t2_ack`/`client_t2_not_before`, `client_close_iff` (t1 for I-frames
+and TESTFR/STARTDT/STOPDT act: exactly when), `client_t3_testfr`, `client_ack_before_stopdt`,
+`client_ack_before_close`.
 -/
 namespace Iec.Props.C11
 open Iec.Srv104 Iec.KWindow
@@ -131,5 +135,253 @@ theorem t3_testfr (s : Slave) (i : Nat) (hi : i < s.conns.length) (hnw : (s.conn
   refine ⟨by simp [emit, Slave.setConn], ?_, ?_⟩
   · rw [conn_setConn _ _ _ hl2]
   · rw [conn_setConn _ _ _ hl2]; rfl
+
+end Iec.Props.C11
+
+/-! ### client role (cs104_connection.c) -/
+namespace Iec.Props.C11
+section Client
+open Iec.Cli104 Iec.KWindow
+open Iec.Srv104 (seqLo seqHi TESTFR_ACT)
+
+/-- the client's socket accepts a write -/
+def CliWritable (c : Cli) : Prop :=
+  (c.phase = 2 ∨ c.phase = 3) ∧ c.sock.writeFail = false ∧ c.sock.peerClosed = false
+
+theorem cli_write_ok (c : Cli) (b : List Nat) (h : CliWritable c) : Iec.Cli104.write c b = Iec.Cli104.emit c (.tx b) := by
+  obtain ⟨h0, h1, h2⟩ := h
+  unfold Iec.Cli104.write
+  rcases h0 with h0 | h0 <;> simp [h0, h1, h2]
+
+theorem cli_write_fields (c : Cli) (b : List Nat) :
+    (Iec.Cli104.write c b).win = c.win ∧ (Iec.Cli104.write c b).unconf = c.unconf ∧ (Iec.Cli104.write c b).uTimeout = c.uTimeout ∧
+    (Iec.Cli104.write c b).now = c.now ∧ (Iec.Cli104.write c b).p = c.p ∧ (Iec.Cli104.write c b).lastConf = c.lastConf ∧
+    (Iec.Cli104.write c b).outstandingTestFR = c.outstandingTestFR ∧ (Iec.Cli104.write c b).nextT3 = c.nextT3 := by
+  unfold Iec.Cli104.write Iec.Cli104.emit
+  split
+  · simp
+  · split <;> simp
+
+/-- what `confirmOutstandingMessages` does on a writable socket: one S-frame carrying V(R), nothing left unacknowledged -/
+theorem client_confirm_spec (c : Cli) (h : CliWritable c) :
+    (confirmOutstanding c).log = c.log ++ [.tx [0x68, 4, 1, 0, seqLo c.vr, seqHi c.vr]] ∧
+    (confirmOutstanding c).unconf = 0 ∧ (confirmOutstanding c).t2Trigger = false := by
+  unfold confirmOutstanding
+  simp only
+  rw [cli_write_ok _ _ (by exact h)]
+  simp [Iec.Cli104.emit]
+
+theorem confirm_fields (c : Cli) :
+    (confirmOutstanding c).win = c.win ∧ (confirmOutstanding c).uTimeout = c.uTimeout ∧
+    (confirmOutstanding c).now = c.now ∧ (confirmOutstanding c).p = c.p ∧ (confirmOutstanding c).unconf = 0 := by
+  unfold confirmOutstanding
+  simp only
+  have := cli_write_fields { c with lastConf := some c.now, unconf := 0, t2Trigger := false } [0x68, 4, 1, 0, seqLo c.vr, seqHi c.vr]
+  obtain ⟨a, b, d, e, f, _⟩ := this
+  exact ⟨a, d, e, f, b⟩
+
+/-- **w (client)**: after the `w` test that follows every received message fewer than w I-frames are unacknowledged -/
+theorem client_ack_after_w (c : Cli) (hw : 0 < c.p.w) : (ackIfW c).unconf < (ackIfW c).p.w := by
+  unfold ackIfW
+  split
+  · rw [(confirm_fields c).2.2.2.2, (confirm_fields c).2.2.2.1]; exact hw
+  · rename_i h
+    simp only [ge_iff_le, Bool.or_eq_true, decide_eq_true_eq, not_or] at h
+    omega
+
+/-- … and the S-frame is written whenever w I-frames are unacknowledged -/
+theorem client_ack_at_w (c : Cli) (h : c.p.w ≤ c.unconf) (hs : CliWritable c) :
+    (ackIfW c).log = c.log ++ [.tx [0x68, 4, 1, 0, seqLo c.vr, seqHi c.vr]] := by
+  unfold ackIfW
+  have : (decide (c.unconf ≥ c.p.w) || c.conState == 4) = true := by simp [h]
+  rw [if_pos this]
+  exact (client_confirm_spec c hs).1
+
+/-- **before STOPDT act the client acknowledges**: `sendStopDT` writes the S-frame with V(R), then STOPDT act -/
+theorem client_ack_before_stopdt (c : Cli) (hs : CliWritable c) :
+    (sendStopDT c).log = c.log ++ [.tx [0x68, 4, 1, 0, seqLo c.vr, seqHi c.vr], .tx STOPDT_ACT] ∧
+    (sendStopDT c).unconf = 0 := by
+  unfold sendStopDT
+  simp only
+  have hs' : CliWritable { (confirmOutstanding c) with conState := 4 } := by
+    unfold confirmOutstanding Iec.Cli104.write
+    obtain ⟨h0, h1, h2⟩ := hs
+    rcases h0 with h0 | h0 <;> simp [h0, h1, h2, Iec.Cli104.emit, CliWritable]
+  rw [cli_write_ok _ _ hs']
+  simp [Iec.Cli104.emit, (client_confirm_spec c hs).1, (client_confirm_spec c hs).2.1]
+
+/-- **before the client closes on its own initiative it acknowledges**: the thread epilogue writes the S-frame
+when anything is unacknowledged, and only then reports the closure -/
+theorem client_ack_before_close (c : Cli) (ev : String) (hu : 0 < c.unconf) (hs : CliWritable c) :
+    (finish c ev).log = c.log ++ [.tx [0x68, 4, 1, 0, seqLo c.vr, seqHi c.vr], .ev ev] := by
+  unfold finish
+  have hu' : c.unconf > 0 := hu
+  simp [hu', Iec.Cli104.emit, (client_confirm_spec c hs).1]
+
+theorem phaseT1_fst (c : Cli) : (Iec.Cli104.phaseT1 c).1 = c := by
+  unfold Iec.Cli104.phaseT1
+  split
+  · rfl
+  · split
+    · rfl
+    · split <;> rfl
+
+theorem phaseT3_quiet (c : Cli) (h3 : c.now ≤ c.nextT3) : Iec.Cli104.phaseT3 c = (c, true) := by
+  unfold Iec.Cli104.phaseT3
+  have : ¬ (c.now > c.nextT3) := by omega
+  simp [this]
+
+theorem handleTimeouts_quiet (c : Cli) (h3 : c.now ≤ c.nextT3) :
+    Iec.Cli104.handleTimeouts c = Iec.Cli104.phaseT1 (Iec.Cli104.phaseT2 c) := by
+  unfold Iec.Cli104.handleTimeouts
+  simp [phaseT3_quiet c h3]
+
+theorem phaseT2_cases (c : Cli) : Iec.Cli104.phaseT2 c = c ∨ Iec.Cli104.phaseT2 c = confirmOutstanding c := by
+  unfold Iec.Cli104.phaseT2
+  split
+  · split
+    · split
+      · exact Or.inr rfl
+      · exact Or.inl rfl
+    · exact Or.inl rfl
+  · exact Or.inl rfl
+
+theorem confirm_nextT3 (c : Cli) : (confirmOutstanding c).nextT3 = c.nextT3 := by
+  unfold confirmOutstanding; simp only; rw [(cli_write_fields _ _).2.2.2.2.2.2.2]
+
+theorem phaseT2_fields (c : Cli) :
+    (Iec.Cli104.phaseT2 c).win = c.win ∧ (Iec.Cli104.phaseT2 c).uTimeout = c.uTimeout ∧
+    (Iec.Cli104.phaseT2 c).now = c.now ∧ (Iec.Cli104.phaseT2 c).p = c.p ∧ (Iec.Cli104.phaseT2 c).nextT3 = c.nextT3 := by
+  rcases phaseT2_cases c with h | h <;> rw [h]
+  · exact ⟨rfl, rfl, rfl, rfl, rfl⟩
+  · obtain ⟨a, b, d, e, _⟩ := confirm_fields c
+    exact ⟨a, b, d, e, confirm_nextT3 c⟩
+
+/-- **t2 (client)**: at a pass of the loop with unacknowledged I-frames whose first one is t2 seconds old (and no
+TESTFR due), exactly one S-frame carrying V(R) is written -/
+theorem client_t2_ack (c : Cli) (l : Nat) (hs : CliWritable c) (h3 : c.now ≤ c.nextT3) (hu : 0 < c.unconf)
+    (hl : c.lastConf = some l) (hlt : l < c.now) (hage : c.p.t2 * 1000 ≤ c.now - l) :
+    (Iec.Cli104.handleTimeouts c).1.log = c.log ++ [.tx [0x68, 4, 1, 0, seqLo c.vr, seqHi c.vr]] ∧
+    (Iec.Cli104.handleTimeouts c).1.unconf = 0 := by
+  rw [handleTimeouts_quiet c h3, phaseT1_fst]
+  have hu' : c.unconf > 0 := hu
+  have hc : (decide (c.now > l) && decide (c.now - l ≥ c.p.t2 * 1000)) = true := by simp; omega
+  have : Iec.Cli104.phaseT2 c = confirmOutstanding c := by
+    unfold Iec.Cli104.phaseT2; simp only [hu', if_true, hl, hc]
+  rw [this]
+  exact ⟨(client_confirm_spec c hs).1, (client_confirm_spec c hs).2.1⟩
+
+/-- … and not before: nothing is written while the first unacknowledged I-frame is younger than t2 -/
+theorem client_t2_not_before (c : Cli) (l : Nat) (h3 : c.now ≤ c.nextT3) (hl : c.lastConf = some l)
+    (hlt : l ≤ c.now) (hage : c.now - l < c.p.t2 * 1000) : (Iec.Cli104.handleTimeouts c).1.log = c.log := by
+  rw [handleTimeouts_quiet c h3, phaseT1_fst]
+  have hc : ¬ ((decide (c.now > l) && decide (c.now - l ≥ c.p.t2 * 1000)) = true) := by simp; omega
+  have : Iec.Cli104.phaseT2 c = c := by
+    unfold Iec.Cli104.phaseT2; simp only [hl, hc, if_false]; split <;> rfl
+  rw [this]
+
+/-- **t3 (client)**: a pass later than t3 seconds after the last reception writes TESTFR act and arms the t1
+supervision of its confirmation -/
+theorem client_t3_testfr (c : Cli) (hs : CliWritable c) (hexp : c.nextT3 < c.now) (ho : c.outstandingTestFR ≤ 2) :
+    (∃ rest, (Iec.Cli104.handleTimeouts c).1.log = c.log ++ .tx TESTFR_ACT :: rest) ∧
+    (Iec.Cli104.handleTimeouts c).1.uTimeout = c.now + c.p.t1 * 1000 ∧
+    (Iec.Cli104.handleTimeouts c).1.nextT3 = c.now + c.p.t3 * 1000 := by
+  have hexp' : c.now > c.nextT3 := hexp
+  have ho' : ¬ (c.outstandingTestFR > 2) := by omega
+  obtain ⟨c1, h31, l1, u1, n1, w1⟩ : ∃ c1, Iec.Cli104.phaseT3 c = (c1, true) ∧ c1.log = c.log ++ [.tx TESTFR_ACT] ∧
+      c1.uTimeout = c.now + c.p.t1 * 1000 ∧ c1.nextT3 = c.now + c.p.t3 * 1000 ∧ CliWritable c1 := by
+    unfold Iec.Cli104.phaseT3
+    simp only [hexp', if_true, ho', if_false]
+    rw [cli_write_ok _ _ hs]
+    exact ⟨_, rfl, rfl, rfl, rfl, hs⟩
+  unfold Iec.Cli104.handleTimeouts
+  simp only [h31, Bool.not_true, Bool.false_eq_true, if_false]
+  rw [phaseT1_fst]
+  obtain ⟨_, fu, _, _, fn⟩ := phaseT2_fields c1
+  refine ⟨?_, by rw [fu, u1], by rw [fn, n1]⟩
+  rcases phaseT2_cases c1 with h | h <;> rw [h]
+  · exact ⟨[], by simp [l1]⟩
+  · exact ⟨[.tx [0x68, 4, 1, 0, seqLo c1.vr, seqHi c1.vr]], by rw [(client_confirm_spec c1 w1).1, l1]; simp⟩
+
+/-- **t1 (client): the connection is closed by a timeout exactly when** a TESTFR act was already sent three times
+without confirmation when the next one is due, or a U-format act (TESTFR/STARTDT/STOPDT) sent earlier has been
+unconfirmed for t1 seconds, or the oldest unacknowledged I-format APDU is t1 seconds old — and not before. -/
+theorem client_close_iff (c : Cli) :
+    (Iec.Cli104.handleTimeouts c).2 = false ↔
+      (c.now > c.nextT3 ∧ c.outstandingTestFR > 2) ∨
+      (¬ c.now > c.nextT3 ∧ c.uTimeout ≠ 0 ∧ c.now > c.uTimeout) ∨
+      (¬ (c.now > c.nextT3 ∧ c.outstandingTestFR > 2) ∧
+        ∃ e rest, c.win = e :: rest ∧ c.now > e.sentTime ∧ c.now - e.sentTime ≥ c.p.t1 * 1000) := by
+  -- the T1 stage on any state with the same window, clock and t1
+  have t1 : ∀ x : Cli, (Iec.Cli104.phaseT1 x).2 = false ↔
+      ((x.uTimeout ≠ 0 ∧ x.now > x.uTimeout) ∨ ∃ e rest, x.win = e :: rest ∧ x.now > e.sentTime ∧ x.now - e.sentTime ≥ x.p.t1 * 1000) := by
+    intro x
+    unfold Iec.Cli104.phaseT1
+    by_cases hu : (x.uTimeout != 0 && decide (x.now > x.uTimeout)) = true
+    · rw [if_pos hu]
+      simp only [Bool.and_eq_true, bne_iff_ne, ne_eq, decide_eq_true_eq] at hu
+      exact ⟨fun _ => Or.inl hu, fun _ => rfl⟩
+    · rw [if_neg hu]
+      simp only [Bool.and_eq_true, bne_iff_ne, ne_eq, decide_eq_true_eq] at hu
+      cases hw : x.win with
+      | nil => simp [hu]
+      | cons e rest =>
+        simp only
+        by_cases hc : (decide (x.now > e.sentTime) && decide (x.now - e.sentTime ≥ x.p.t1 * 1000)) = true
+        · rw [if_pos hc]
+          simp only [Bool.and_eq_true, decide_eq_true_eq] at hc
+          exact ⟨fun _ => Or.inr ⟨e, rest, rfl, hc.1, hc.2⟩, fun _ => rfl⟩
+        · rw [if_neg hc]
+          simp only [Bool.and_eq_true, decide_eq_true_eq] at hc
+          constructor
+          · intro h; cases h
+          · rintro (h | ⟨e', r', he, h1, h2⟩)
+            · exact absurd h hu
+            · cases he; exact absurd ⟨h1, h2⟩ hc
+  unfold Iec.Cli104.handleTimeouts
+  by_cases h3 : c.now > c.nextT3
+  · by_cases ho : c.outstandingTestFR > 2
+    · have : Iec.Cli104.phaseT3 c = (c, false) := by unfold Iec.Cli104.phaseT3; simp [h3, ho]
+      simp [this, h3, ho]
+    · -- TESTFR act sent now: its t1 supervision starts now and cannot have expired
+      obtain ⟨c1, h31, u1, w1, n1, p1⟩ : ∃ c1, Iec.Cli104.phaseT3 c = (c1, true) ∧
+          c1.uTimeout = c.now + c.p.t1 * 1000 ∧ c1.win = c.win ∧ c1.now = c.now ∧ c1.p = c.p := by
+        unfold Iec.Cli104.phaseT3
+        simp only [h3, if_true, ho, if_false]
+        obtain ⟨a, _, _, d, e, _⟩ := cli_write_fields c TESTFR_ACT
+        exact ⟨_, rfl, by simp [d, e], a, d, e⟩
+      simp only [h31, Bool.not_true, Bool.false_eq_true, if_false]
+      rw [t1]
+      obtain ⟨fw, fu, fn, fp, _⟩ := phaseT2_fields c1
+      rw [fw, fu, fn, fp, w1, u1, n1, p1]
+      constructor
+      · rintro (⟨_, h⟩ | h)
+        · omega
+        · exact Or.inr (Or.inr ⟨by simp [ho], h⟩)
+      · rintro (⟨_, h⟩ | ⟨h, _⟩ | ⟨_, h⟩)
+        · exact absurd h ho
+        · exact absurd h3 h
+        · exact Or.inr h
+  · have hq : c.now ≤ c.nextT3 := by omega
+    simp only [phaseT3_quiet c hq, Bool.not_true, Bool.false_eq_true, if_false]
+    rw [t1]
+    obtain ⟨fw, fu, fn, fp, _⟩ := phaseT2_fields c
+    rw [fw, fu, fn, fp]
+    constructor
+    · rintro (h | h)
+      · exact Or.inr (Or.inl ⟨h3, h⟩)
+      · exact Or.inr (Or.inr ⟨by simp [h3], h⟩)
+    · rintro (⟨h, _⟩ | ⟨_, h⟩ | ⟨_, h⟩)
+      · exact absurd h h3
+      · exact Or.inl h
+      · exact Or.inr h
+
+def exP : Params := { k := 12, w := 8, t0 := 10, t1 := 15, t2 := 10, t3 := 20, asduHdr := 4 }
+def exC (now : Nat) : Cli := { p := exP, now := now, nextT3 := 30000, win := [{ seq := 0, sentTime := 5000, qref := none }] }
+/-- non-vacuity: a client with one I-frame sent 15 s ago and t1 = 15 s closes; at 14.999 s it does not -/
+example : (Iec.Cli104.handleTimeouts (exC 20000)).2 = false := by decide
+example : (Iec.Cli104.handleTimeouts (exC 19999)).2 = true := by decide
+
+end Client
 
 end Iec.Props.C11
